@@ -8,7 +8,12 @@ import (
 	"sync"
 	"time"
 
+	"context"
+
 	"github.com/fatedier/frp/pkg/msg"
+	plugin "github.com/fatedier/frp/pkg/plugin/server"
+
+	"verif/mc/peek"
 
 	"verif/mc/drv"
 	"verif/mc/vs"
@@ -87,10 +92,26 @@ func scDupName(x *vs.Exec) {
 }
 
 // relogin: the client logs in again with its run id while the old session is live (and busy).
-func scRelogin(n int, busy bool) func(x *vs.Exec) {
+// slowHook is an in-memory server plugin whose NewProxy hook takes 10 s (virtual) for the proxy named "...m":
+// the old session is then still busy handling a message while the re-login arrives.
+type slowHook struct{}
+
+func (slowHook) Name() string             { return "slow" }
+func (slowHook) IsSupport(op string) bool { return op == plugin.OpNewProxy }
+func (slowHook) Handle(_ context.Context, _ string, content any) (*plugin.Response, any, error) {
+	if c, ok := content.(plugin.NewProxyContent); ok && strings.HasSuffix(c.ProxyName, "m") {
+		time.Sleep(10 * time.Second)
+	}
+	return &plugin.Response{Unchange: true}, nil, nil
+}
+
+func scRelogin(n int, busy bool, slow ...bool) func(x *vs.Exec) {
 	return func(x *vs.Exec) {
 		defer sw.Guard()
 		w := newWorld(x)
+		if len(slow) > 0 && slow[0] {
+			peek.F(w.Svc, "pluginManager").Interface().(*plugin.Manager).Register(slowHook{})
+		}
 		a1 := w.MustLogin("a1", sw.LoginOpt{User: "ua", PoolCount: 1})
 		if r := a1.Reg(tcp("n", 20001)); r != "ok:20001" {
 			vs.Fail("setup: %s", r)
@@ -253,6 +274,7 @@ func scenarios() {
 	mk("relogin1", scRelogin(1, false))
 	mk("relogin1-busy", scRelogin(1, true))
 	mk("relogin2", scRelogin(2, false))
+	mk("relogin1-slowhook", scRelogin(1, true, true))
 	mk("takeover", scTakeover)
 	mk("fresh", scFresh)
 }
@@ -268,9 +290,13 @@ func main() {
 	runs := []struct {
 		s string
 		b int
-	}{{"dupname", b}, {"relogin1", b}, {"relogin1-busy", b - 1}, {"relogin2", b - 1}, {"takeover", b}, {"fresh", 1}}
+	}{{"dupname", b}, {"relogin1", b}, {"relogin1-busy", b - 1}, {"relogin2", b - 1}, {"relogin1-slowhook", b - 1}, {"takeover", b}, {"fresh", 1}}
 	for i, r := range runs {
-		c.ExploreBoth(r.s, r.b, 1.0/float64(len(runs)-i))
+		share := 1.0 / float64(len(runs)-i)
+		if share < 0.4 {
+			share = 0.4 // scenarios that finish early leave their time to the later ones
+		}
+		c.ExploreBoth(r.s, r.b, share)
 	}
 	c.Finish()
 }
